@@ -93,15 +93,27 @@ def run(ctx):
     cmps = []
     for c in rc.calls():
         es = [expr(rc, a) for a in c.args]
-        if any(re.search(r"\btrailing_idx\b", e) for e in es) and (c.is_(r"PartialEq>?::(eq|ne)$", r"PartialOrd>?::(lt|le|gt|ge)$", r"Option::(is_some_and|map_or|is_none_or)$")):
+        if any(re.search(r"\btrailing_idx\b", e) for e in es) and (c.is_(r"PartialEq>?::(eq|ne)$", r"PartialOrd>?::(lt|le|gt|ge)$", r"Option::(is_some_and|map_or|is_none_or|is_some|is_none)$")):
             cmps.append((c, es))
     res.floor("R5.4", "comparisons with trailing_idx in react", len(cmps), 1)
     for c, es in cmps:
         other = [e for e in es if not re.search(r"\btrailing_idx\b", e)]
         o = other[0] if other else ""
         name = c.callee_q.rsplit("::", 1)[1]
-        if re.search(r"Some\(0\)", o):
-            res.ok("R5.4", "whole-tail-shortcut", c.where(), "trailing_idx == Some(0): the whole value list is trailing")
+        if not o and name in ("eq", "ne"):
+            o = str(const_of(rc, [a for a, e in zip(c.args, es) if not re.search(r"\btrailing_idx\b", e)][0]) or "") if len(c.args) == 2 else ""
+        if name in ("is_some", "is_none") and expr(rc, c.args[0]) == "trailing_idx" and (has_bool(rc, c.bb, "T", r"^is_dont_delimit_trailing_values_set\(") or rc.call_branch(c)):
+            # a bare presence test decides about ALL values of the occurrence, also those given before `--`
+            spl_ = rc.calls_to(r"OsStrExt>?::split$")
+            br = rc.call_branch(c)
+            skips = br and spl_ and all(s_.bb not in rc.reachable(br[1] if name == "is_some" else br[2]) for s_ in spl_)
+            res.check(not skips, "R5.4", "whole-tail-shortcut", c.where(), "presence of a trailing index does not by itself skip splitting",
+                      "react skips delimiter splitting for the whole occurrence as soon as it has ANY trailing index (trailing_idx.%s()): values given before `--` are no longer split although they would be without the tail" % name)
+            continue
+        if name in ("eq", "ne") and expr(rc, c.args[0]) == "trailing_idx":
+            pay = agg_payloads(rc, c.args[1])
+            res.check(pay == [("Some", [0])], "R5.4", "whole-tail-shortcut", c.where(), "trailing_idx == Some(0): the whole value list is trailing",
+                      "the no-split shortcut compares trailing_idx with %s, not Some(0): values before the start of the tail skip delimiter splitting" % pay)
             continue
         per_index = re.search(r"enumerate\(", o) is not None or re.search(r"#Some\.0\.0", o) is not None
         if per_index:
